@@ -88,6 +88,25 @@ fn gen_set(rng: &mut Rng) -> (Vec<Universal2DBox>, &'static str) {
             }
         }
     }
+    // a tenth of the sets: some boxes reach their final parameters through public field writes AFTER gen_vertices() cached
+    // the polygon of an earlier state (the trackers call gen_vertices() on every observation box); the share is a
+    // function of the current parameters only
+    if rng.chance(0.1) {
+        for b in v.iter_mut() {
+            if rng.chance(0.5) {
+                let mut t = Universal2DBox::new(b.xc + 1.5 * b.height, b.yc - 0.5 * b.height, Some(b.angle.unwrap_or(0.0) + 0.8), b.aspect * 1.4, b.height * 0.6);
+                t.gen_vertices();
+                t.xc = b.xc;
+                t.yc = b.yc;
+                t.angle = b.angle;
+                t.aspect = b.aspect;
+                t.height = b.height;
+                t.confidence = b.confidence;
+                *b = t;
+            }
+        }
+        return (v, match fam { "integer-grid" => "integer-grid/field-writes-after-gen_vertices", "axis-aligned" => "axis-aligned/field-writes-after-gen_vertices", "rotated" => "rotated/field-writes-after-gen_vertices", _ => "near-degenerate/field-writes-after-gen_vertices" });
+    }
     (v, fam)
 }
 
@@ -185,7 +204,7 @@ fn main() {
         let mut refs = vec![];
         for i in 0..boxes.len() {
             let area = geom::shoelace(&polys[i]);
-            let r = if fam == "integer-grid" {
+            let r = if fam.starts_with("integer-grid") {
                 rep.count("exact_grid_references");
                 grid_share(&boxes, i)
             } else {
@@ -222,7 +241,7 @@ fn main() {
             }
         }
         // cross-check the reference itself by stratified sampling now and then
-        if idx % 50 == 0 && fam != "integer-grid" {
+        if idx % 50 == 0 && !fam.starts_with("integer-grid") {
             let i = rng.usize(boxes.len());
             let b = &boxes[i];
             let (w, h) = (b.height as f64 * b.aspect as f64, b.height as f64);
